@@ -294,6 +294,33 @@ func (e *Eng) runOnce(loopMods map[int]map[string]bool) map[int]map[string]bool 
 	return nextMods
 }
 
+// coverProps: vacuity guards are reported under every property the function serves.
+func (e *Eng) coverProps() []string {
+	set := map[string]bool{}
+	if e.fc != nil {
+		for p := range e.fc.Properties {
+			set[p] = true
+		}
+		for p := range e.fc.Safe {
+			set[p] = true
+		}
+		for p := range e.fc.Terminates {
+			set[p] = true
+		}
+		for _, c := range append(append([]*Clause{}, e.fc.Requires...), e.fc.Ensures...) {
+			for _, p := range strings.Fields(strings.ReplaceAll(c.Property, ",", " ")) {
+				set[p] = true
+			}
+		}
+	}
+	var ps []string
+	for p := range set {
+		ps = append(ps, p)
+	}
+	sort.Strings(ps)
+	return ps
+}
+
 func (e *Eng) allProps() []string {
 	var ps []string
 	if e.fc != nil {
@@ -942,9 +969,7 @@ func (e *Eng) finish(fr *Frame) {
 	if e.isPkgInit() {
 		e.pkgInvObligations(st)
 	}
-	if len(e.fc.Ensures) > 0 {
-		e.cover(st, "exit", e.allProps(), nil, "some return is reachable under the assumed callee contracts")
-	}
+	e.cover(st, "exit", e.coverProps(), nil, "some return is reachable under the assumed callee contracts and invariants")
 }
 
 
